@@ -346,6 +346,9 @@ pub fn c06_streams(thorough: bool) -> Vec<GenStream> {
     v.extend(streams::zlib_wrappers().into_iter().step_by(5));
     v.extend(streams::short_code_then_stored(None).into_iter().step_by(if thorough { 1 } else { 3 }));
     v.extend(streams::short_code_then_stored(Some((7, 2))).into_iter().step_by(if thorough { 2 } else { 7 }));
+    // the stored block's payload served out of the bit buffer, for every fill level at the EOB code
+    v.extend(streams::literal_run_then_tiny_stored(None, thorough));
+    v.extend(streams::literal_run_then_tiny_stored(Some((7, 2)), false).into_iter().step_by(if thorough { 1 } else { 3 }));
     let cc = corpus::compact_corpus(true);
     v.extend(cc.into_iter().step_by(if thorough { 2 } else { 6 }));
     v.extend(corpus::produced_corpus().into_iter().step_by(if thorough { 3 } else { 12 }));
